@@ -1,6 +1,7 @@
 import Rcgen.Theorems.C09
 import Rcgen.Theorems.C02
 import Rcgen.Spec.X509
+import Rcgen.Proofs.Canon
 /-
   C04 — everything emitted as DER is canonical DER.
   The TLV layer (definite minimal lengths, low tag numbers, no trailing bytes) is the generic
@@ -181,6 +182,78 @@ theorem key_usage_minimal :
       (match keyUsageValue (C02.kuSubset m) with
        | .prim 0 3 c => namedBitsMinimal c
        | _ => false)) = true := by decide +kernel
+
+/-! ### whole artefacts -/
+
+/-- what the string types guarantee (C13: their constructors accept exactly these alphabets):
+    every attribute value lies in the alphabet of the tag it is written under -/
+abbrev nameCanon := Proofs.Canon.nameCanon
+abbrev paramsCanon := Proofs.Canon.paramsCanon
+
+/-- **every certificate is canonical DER, outermost element to the inside of every extension
+    value**: for every parameter set with which generation succeeds, every key, issuer, hash
+    family and signature, the signed certificate passes the whole-artefact checker
+    `Spec.certCanonical` — strict TLV (definite minimal lengths, no trailing bytes), minimal
+    INTEGERs and OIDs, TRUE as FF, DEFAULT FALSE absent (critical, cA), BIT STRING padding zero
+    and the key-usage named-bit list minimal for every list of usages, single-valued RDN SETs,
+    strings within the alphabet of their tag, time values in the RFC 5280 form and choice, and
+    every known extension's value itself canonical.  Caller-supplied extensions are carried
+    under identifiers the checker does not open. -/
+theorem cert_is_canonical (i : Spec.CertInputs) (sig : Bytes)
+    (hinv : certInvalid i.p i.issuer = none)
+    (hnp : certPanics i.p i.issuer = false)
+    (hcu : ∀ e ∈ i.p.customExts, e.oid ∉ Proofs.X509.knownOids)
+    (hcanon : paramsCanon i.p i.issuer = true)
+    (hsize : (encode (Proofs.Canon.signedCert i sig)).length < 256 ^ 126) :
+    certCanonical (encode (Proofs.Canon.signedCert i sig)) = true :=
+  Proofs.Canon.cert_canonical i sig hinv hnp hcu hcanon hsize
+
+/-- **every CRL is canonical DER**, entries and both extension levels included -/
+theorem crl_is_canonical (i : Spec.CrlInputs) (sig : Bytes)
+    (hinv : crlInvalid i.p i.issuer = none)
+    (hnp : crlPanics i.p i.issuer = false)
+    (hcanon : nameCanon i.issuer.dn = true)
+    (hsize : (encode (Proofs.Canon.signedCrl i sig)).length < 256 ^ 126) :
+    crlCanonical (encode (Proofs.Canon.signedCrl i sig)) = true :=
+  Proofs.Canon.crl_canonical i sig hinv hnp hcanon hsize
+
+/-- **every CSR is canonical DER**: the attribute SET OF is sorted for every attribute list,
+    the extension request is canonical, and caller-supplied attribute values — embedded byte
+    for byte — are as canonical as the caller made them -/
+theorem csr_is_canonical (i : Spec.CsrInputs) (vals : Attribute → Asn1) (sig : Bytes)
+    (hv : Proofs.CsrDecode.ValuesAreDer i.attrs vals)
+    (hvc : ∀ a ∈ i.attrs, canonical (vals a) = true)
+    (hne : ∀ a ∈ i.attrs, a.oid ≠ [1, 2, 840, 113549, 1, 9, 14])
+    (hun : csrUnsupported i.p = false)
+    (hnp : csrPanics i.p i.attrs = false)
+    (hcu : ∀ e ∈ i.p.customExts, e.oid ∉ Proofs.X509.knownOids)
+    (hcanon : nameCanon i.p.dn = true) (hsan : i.p.sans.all Proofs.Canon.sanCanon = true)
+    (hsize : (encode (Proofs.Canon.Csr.signedCsr i sig)).length < 256 ^ 126) :
+    csrCanonical (encode (Proofs.Canon.Csr.signedCsr i sig)) = true :=
+  Proofs.Canon.Csr.csr_canonical i vals sig hv hvc hne hun hnp hcu hcanon hsan hsize
+
+/-- the exported SubjectPublicKeyInfo is canonical DER for every algorithm and key -/
+theorem spki_is_canonical (k : PubKey) (hsize : (spkiDer k).length < 256 ^ 126) :
+    spkiCanonical (spkiDer k) = true := by
+  unfold spkiCanonical spkiDer
+  rw [decodeAll_encode _ (wf_of_tagsOk _ (Proofs.CertDecode.tagsOk_spki k) hsize)]
+  exact Proofs.Canon.canonical_spki k
+
+/-- OBJECT IDENTIFIERs are minimal for every component list the writer accepts -/
+theorem oid_minimal (arcs : List Nat) (h : oidOk arcs = true) :
+    oidMinimal (oidContent arcs) = true := Proofs.Canon.oidMinimal_oidContent arcs h
+
+/-- the KeyUsage BIT STRING is canonical and its named-bit list minimal for *every* list of
+    usages (the 512-row table lifted) -/
+theorem key_usage_canonical (kus : List KeyUsage) (hne : kus ≠ []) :
+    canonical (keyUsageValue kus) = true ∧ kuValueOk (keyUsageValue kus) = true :=
+  ⟨Proofs.Canon.canonical_kuValue kus, Proofs.Canon.kuValueOk_value kus hne⟩
+
+/-! non-vacuity: the certificate, CRL and CSR of the C02 / C08 / C07 examples meet the
+    hypotheses of the whole-artefact theorems -/
+example : paramsCanon C02.exInputs.p C02.exInputs.issuer = true := by decide +kernel
+example : (encode (Proofs.Canon.signedCert C02.exInputs [1, 2, 3])).length < 256 ^ 126 := by
+  decide +kernel
 
 /-! non-vacuity -/
 example : intContentOfBytes [0, 0, 0x80, 1] = [0, 0x80, 1] := by decide
